@@ -25,6 +25,10 @@ func accessPath(v ssa.Value, depth int) string {
 	switch x := v.(type) {
 	case *ssa.Parameter:
 		return x.Name()
+	case *ssa.Alloc:
+		if x.Comment != "" && x.Comment != "complit" && x.Comment != "varargs" {
+			return x.Comment
+		}
 	case *ssa.FieldAddr:
 		return accessPath(x.X, depth+1) + "." + fieldNameOf(x.X.Type(), x.Field)
 	case *ssa.Field:
